@@ -73,6 +73,8 @@ class Gen:
                 live = self.body(scope, depth + 1, self.r.randrange(1, 3), allow_defs=False)
                 dead = self.body(scope, depth + 1, self.r.randrange(1, 3), allow_defs=False)
                 out.append({"k": "ifelse", "c": c, "then": live if c else dead, "else": dead if c else live})
+            elif allow_defs and scope and x < 0.615:
+                out.append({"k": "blk", "oid": self.new_oid()})          # `bne -`: a use of the automatic block-start symbol
             elif x < 0.64 and depth < self.maxdepth:
                 out.append({"k": "ifdef", "path": [], "oids": [], "scope": scope, "body": self.body(scope, depth + 1, self.r.randrange(1, 3), allow_defs=False)})
             elif allow_defs and x < 0.67 and depth < self.maxdepth and self.consts and not self.two:      # (never in untaken code)
@@ -271,6 +273,9 @@ def render(prog, fname, occ, indent=0, lines=None):
         elif k == "macrocall":
             occ[st["oid"]] = {"f": fname, "line": len(lines), "col": len(pad), "len": len(st["name"]), "name": st["name"], "def": False}
             lines.append(pad + st["name"] + "(" + ", ".join(str(a) for a in st["args"]) + ")")
+        elif k == "blk":
+            occ[st["oid"]] = {"f": fname, "line": len(lines), "col": len(pad) + 4, "len": 1, "name": "-", "def": False}
+            lines.append(pad + "bne -")
         elif k == "pad":
             lines.extend(["// pad"] * st["n"])
         elif k == "var":
